@@ -298,6 +298,15 @@ def _run_2d(rec, rng, q, zero, ctx):
             d.dqx_data, d.dqy_data = np.zeros(n), np.zeros(n)
     elif variant == 3:
         d.dqy_data = np.zeros(n)     # one of the two widths zero
+    elif variant == 2:
+        d.dqx_data = np.zeros(n)     # the other one zero
+    elif variant == 1 and n > 1:
+        # per-pixel mixture of (S,S), (0,S), (S,0)
+        which = rng.integers(0, 3, n)
+        d.dqx_data = np.where(which == 1, 0.0, d.dqx_data)
+        d.dqy_data = np.where(which == 2, 0.0, d.dqy_data)
+    sr0 = None if d.dqx_data is None else np.array(d.dqx_data, float)   # the code edits its inputs in place
+    st0 = None if d.dqy_data is None else np.array(d.dqy_data, float)
     acc = ["low", "med", "high", "xhigh"][int(rng.integers(4))]
     rec.bucket("acc:" + acc)
     ctx.update(accuracy=acc, dq_rel=[rel_r, rel_t], zero=zero)
@@ -319,7 +328,7 @@ def _run_2d(rec, rng, q, zero, ctx):
     a, b = 3.7, 0.41
     lin = res.apply(a*f + b) - (a*res.apply(f) + b)
     rec.check("linear_in_scale_background", bool(np.all(np.abs(lin) <= 1e-9*(a + b))), dict(ctx, worst=float(np.max(np.abs(lin)))))
-    if not zero and res.q_calc_weights is not None:
+    if not zero and res.q_calc_weights is not None and sr0 is not None:
         # support: the sampled radii reach 3 sigma within one ring step, in the frame aligned with q
         nb = res.nr*res.nphi
         qx = qxc.reshape(nb, n)
@@ -331,10 +340,15 @@ def _run_2d(rec, rng, q, zero, ctx):
             cx, cy = q[i]*np.cos(phi0[i]), q[i]*np.sin(phi0[i])
             dr = (qx[:, i] - cx)*np.cos(phi0[i]) + (qy[:, i] - cy)*np.sin(phi0[i])
             dt = -(qx[:, i] - cx)*np.sin(phi0[i]) + (qy[:, i] - cy)*np.cos(phi0[i])
-            sr, stt = max(d.dqx_data[i], 1e-10), max(d.dqy_data[i], 1e-10)
-            rho = np.hypot(dr/sr, dt/stt)
-            if not (rho.max() >= 3.0*(1 - 1.0/res.nr) - 1e-9 and rho.max() <= 3.0 + 1e-9):
+            reach = 3.0*(1 - 1.0/res.nr)
+            rho = np.array([np.max(np.abs(dr)), np.max(np.abs(dt))])
+            if sr0[i] > 1e-9 and not (reach*sr0[i]*(1 - 1e-9) <= rho[0] <= 3.0*sr0[i]*(1 + 1e-9)):
                 ok = False
+            if st0[i] > 1e-9 and not (0.85*reach*st0[i] <= rho[1] <= 3.0*st0[i]*(1 + 1e-9)):
+                ok = False
+            if not ok:
+                ctx = dict(ctx, pixel=i, sigma_r=float(sr0[i]), sigma_t=float(st0[i]), reach_r=float(rho[0]),
+                           reach_t=float(rho[1]))
                 break
         rec.check("support_spans_window", ok, dict(ctx, max_rho=float(rho.max()), nr=res.nr))
     if zero:
